@@ -2,6 +2,9 @@
 //!
 //!   tarjan_components <desc>   =>  [[ids of component 1, ascending] [component 2] ...] | panic
 //!
+//!   tarjan_repeat <desc> <k>   =>  [[[..] ..] [[..] ..] ..] | panic   (k = 1..5)
+//!       `components()` called `k` times on ONE `Tarjan` value; the k returned lists in call order.
+//!
 //! `desc` is any digraph description (`al am mx el wu wi`; all six implement
 //! `OutNeighbors + Vertices`).  The components are printed in EMISSION order (the order of the
 //! returned `Vec`), each `BTreeSet` in its iteration (= ascending) order.
@@ -23,6 +26,22 @@ pub fn eval(op: &str, args: &[V]) -> Option<Vec<V>> {
                 with_digraph!(&desc, d => Tarjan::new(&d).components().clone());
             Some(vec![V::L(comps.into_iter().map(V::us).collect())])
         }
+        "tarjan_repeat" => {
+            let [desc, k] = args else { return None };
+            let desc = Desc::parse(desc)?;
+            let k = k.as_usize()?;
+            if k == 0 || k > 5 {
+                return None;
+            }
+            let outs: Vec<Vec<BTreeSet<usize>>> = with_digraph!(&desc, d => {
+                let mut t = Tarjan::new(&d);
+                (0..k).map(|_| t.components().clone()).collect()
+            });
+            Some(vec![V::L(outs
+                .into_iter()
+                .map(|cs| V::L(cs.into_iter().map(V::us).collect()))
+                .collect())])
+        }
         _ => None,
     }
 }
@@ -31,6 +50,60 @@ const REPRS: [&str; 6] = ["al", "am", "mx", "el", "wu", "wi"];
 
 fn emit_desc(emit: &mut dyn FnMut(String), d: &Desc) {
     emit(format!("tarjan_components {}", d.to_v()));
+}
+
+fn emit_repeat(emit: &mut dyn FnMut(String), d: &Desc, k: usize) {
+    emit(format!("tarjan_repeat {} {k}", d.to_v()));
+}
+
+/// Ids far outside `0..order`: around 2^32, 2^62, 2^63 and `usize::MAX`, mixed with small ones,
+/// with pairs congruent mod 64 / mod 2^32 (hash-, filter- or truncation-style shortcuts).
+fn huge_ids(rng: &mut Rng, n: usize) -> Vec<usize> {
+    const M: usize = usize::MAX;
+    const POOL: [usize; 28] = [
+        0, 1, 2, 63, 64, 65, 128, 1 << 16, (1 << 32) - 1, 1 << 32, (1 << 32) + 1, (1 << 32) + 64,
+        (1 << 33) + 1, 1 << 48, 1 << 62, (1 << 62) + 64, (1 << 63) - 1, 1 << 63, (1 << 63) + 1,
+        (1 << 63) + 64, M / 2 - 1, M / 3, M - 129, M - 65, M - 64, M - 2, M - 1, M,
+    ];
+    let mut ids: Vec<usize> = POOL.to_vec();
+    rng.shuffle(&mut ids);
+    ids.truncate(n.min(POOL.len()));
+    while ids.len() < n {
+        let x = (rng.next() as usize) | if rng.chance(1, 2) { 1 << 63 } else { 0 };
+        if !ids.contains(&x) {
+            ids.push(x);
+        }
+    }
+    ids.sort_unstable();
+    ids
+}
+
+fn huge_desc(rng: &mut Rng, n: usize) -> Desc {
+    let (_, arcs) = if rng.chance(1, 2) { graphs::gen_arcs(rng, n) } else { gen_scc_arcs(rng, n) };
+    let ids = huge_ids(rng, n);
+    let arcs: Vec<(usize, usize)> = arcs.into_iter().map(|(u, v)| (ids[u], ids[v])).collect();
+    let k = arcs.len();
+    Desc { repr: "am".to_string(), verts: ids, arcs, weights: vec![1; k] }
+}
+
+/// Large orders (200..600): sparse SCC-structured families, plus "circuit with pendants"
+/// (a long circuit whose vertices each have a finished out-neighbour: residue / filter bugs).
+fn large_desc(rng: &mut Rng, lo: usize, hi: usize) -> Desc {
+    let repr = REPRS[rng.below(6)];
+    let n = lo + rng.below(hi - lo + 1);
+    let arcs = if rng.chance(1, 3) {
+        let c = n / 2 + rng.below(n / 4 + 1);
+        let mut a: Vec<(usize, usize)> = (0..c).map(|i| (i, (i + 1) % c)).collect();
+        for p in c..n {
+            a.push((rng.below(c), p));
+        }
+        rng.shuffle(&mut a);
+        a
+    } else {
+        gen_scc_arcs(rng, n).1
+    };
+    let sparse = rng.chance(1, 2);
+    finish_desc(rng, repr, n, arcs, sparse)
 }
 
 /// Order mixture: recursion depth matters, word boundaries do not — cap at 60.
@@ -220,10 +293,57 @@ fn all_digraphs(n: usize, mut f: impl FnMut(u32, Vec<(usize, usize)>)) {
     }
 }
 
+/// Out-of-distribution stream (`gharness gen C09 <seed> stress`): used by the orchestrator's
+/// search when a tie is broken.  Most promising first; ~30 s of harness + driver time.
+fn gen_stress(rng: &mut Rng, emit: &mut dyn FnMut(String)) {
+    // state carried between calls, all representations, small digraphs first
+    for n in 1..=3usize {
+        let mut all: Vec<Vec<(usize, usize)>> = vec![];
+        all_digraphs(n, |_, arcs| all.push(arcs));
+        for (j, arcs) in all.into_iter().enumerate() {
+            let d = finish_desc(rng, REPRS[j % 6], n, arcs, j % 2 == 0);
+            emit_repeat(emit, &d, 2 + j % 2);
+        }
+    }
+    // huge ids
+    for j in 0..1500usize {
+        let n = 1 + rng.below(if j % 4 == 0 { 24 } else { 8 });
+        let d = huge_desc(rng, n);
+        if j % 3 == 0 {
+            emit_repeat(emit, &d, 2 + rng.below(2));
+        } else {
+            emit_desc(emit, &d);
+        }
+    }
+    // orders 64..200: ids congruent mod 64, denser digraphs
+    for _ in 0..300 {
+        let repr = REPRS[rng.below(6)];
+        let n = 64 + rng.below(137);
+        let (_, arcs) = if rng.chance(1, 2) { graphs::gen_arcs(rng, n) } else { gen_scc_arcs(rng, n) };
+        let arcs: Vec<(usize, usize)> = if arcs.len() > 6 * n { arcs.into_iter().take(6 * n).collect() } else { arcs };
+        let sparse = rng.chance(1, 2);
+        let d = finish_desc(rng, repr, n, arcs, sparse);
+        emit_desc(emit, &d);
+    }
+    // orders 200..600 (recursion depth, stack sizes)
+    for j in 0..24usize {
+        let d = if j < 16 { large_desc(rng, 200, 360) } else { large_desc(rng, 360, 600) };
+        if j % 4 == 0 {
+            emit_repeat(emit, &d, 2);
+        } else {
+            emit_desc(emit, &d);
+        }
+    }
+}
+
 pub fn gen(rng: &mut Rng, thorough: bool, emit: &mut dyn FnMut(String)) {
+    if crate::stress() {
+        gen_stress(rng, emit);
+        return;
+    }
     // (1) exhaustive small scope: every digraph on <= 3 vertices in all six representations,
     //     every digraph on 4 vertices (representation rotates; thorough: `al` as well);
-    //     sparse ids for every other `am`.
+    //     sparse ids for every other `am`.  Every digraph on <= 3 vertices also with repeated calls.
     let mut k = 0usize;
     for n in 1..=4 {
         let mut all: Vec<Vec<(usize, usize)>> = vec![];
@@ -241,12 +361,18 @@ pub fn gen(rng: &mut Rng, thorough: bool, emit: &mut dyn FnMut(String)) {
                 let d = finish_desc(rng, repr, n, arcs.clone(), k % 12 < 6);
                 emit_desc(emit, &d);
             }
+            if n <= 3 {
+                let d = finish_desc(rng, REPRS[k % 6], n, arcs.clone(), k % 12 < 6);
+                emit_repeat(emit, &d, 2 + k % 2);
+            }
         }
     }
     // the empty AdjacencyMap (reachable through `filter_vertices`)
     emit("tarjan_components [am [] []]".to_string());
+    emit("tarjan_repeat [am [] []] 3".to_string());
 
-    // (2) random: shared families and SCC-structured families, all representations
+    // (2) random: shared families and SCC-structured families, all representations;
+    //     every 5th digraph with `components()` called 2..3 times on the same value
     let n_random = if thorough { 40_000 } else { 2_000 };
     for j in 0..n_random {
         let repr = REPRS[rng.below(6)];
@@ -254,21 +380,41 @@ pub fn gen(rng: &mut Rng, thorough: bool, emit: &mut dyn FnMut(String)) {
         let (_, arcs) = if rng.chance(1, 2) { graphs::gen_arcs(rng, n) } else { gen_scc_arcs(rng, n) };
         let sparse = rng.chance(1, 2);
         let d = finish_desc(rng, repr, n, arcs, sparse);
-        emit_desc(emit, &d);
+        if j % 5 == 4 {
+            emit_repeat(emit, &d, 2 + rng.below(2));
+        } else {
+            emit_desc(emit, &d);
+        }
         // the shared sparse generator (ids around word boundaries) now and then
         if j % 16 == 0 {
             let (_, d) = graphs::gen_am_sparse(rng, 12);
             emit_desc(emit, &d);
         }
+        // ids around 2^32, 2^63, usize::MAX
+        if j % 16 == 8 {
+            let n = 1 + rng.below(10);
+            let d = huge_desc(rng, n);
+            if j % 32 == 8 {
+                emit_repeat(emit, &d, 2);
+            } else {
+                emit_desc(emit, &d);
+            }
+        }
     }
 
-    // (3) deep recursion: orders 100..200, sparse SCC-structured families only
+    // (3) deep recursion: orders 100..200, sparse SCC-structured families only;
+    //     thorough: a few of 200..600
     for _ in 0..(if thorough { 40 } else { 4 }) {
-        let repr = REPRS[rng.below(6)];
-        let n = 100 + rng.below(101);
-        let (_, arcs) = gen_scc_arcs(rng, n);
-        let sparse = rng.chance(1, 2);
-        let d = finish_desc(rng, repr, n, arcs, sparse);
+        let d = large_desc(rng, 100, 200);
+        emit_desc(emit, &d);
+    }
+    if thorough {
+        for _ in 0..6 {
+            let d = large_desc(rng, 200, 600);
+            emit_desc(emit, &d);
+        }
+    } else {
+        let d = large_desc(rng, 200, 300);
         emit_desc(emit, &d);
     }
 }
